@@ -280,7 +280,30 @@ static const char *RFORMN[NRFORMS] = {"ST::string,ST::string", "const char*,cons
                                       "ST::string,ST::string,cs,validation", "const char*,const char*,cs,validation", "ST::string,const char*,cs,validation",
                                       "const char*,ST::string,cs,validation"};
 
+static ST::string call_replace_on(int form, const ST::string &s, const ST::string &fs, const char *fz, const ST::string &ts, const char *tz, bool ci);
+// every overload is called on a const subject and on a non-const copy of it (some overloads are declared without const and are
+// only selected for a non-const object); both results must be the same
 static ST::string call_replace(int form, const ST::string &s, const ST::string &fs, const char *fz, const ST::string &ts, const char *tz, bool ci)
+{
+    ST::string r1 = call_replace_on(form, s, fs, fz, ts, tz, ci);
+    ST::string m = s;
+    ST::case_sensitivity_t cs = ci ? ST::case_insensitive : ST::case_sensitive;
+    ST::string r2;
+    switch (form) {
+    case R_SS: r2 = m.replace(fs, ts, cs); break;
+    case R_CC: r2 = m.replace(fz, tz, cs); break;
+    case R_SC: r2 = m.replace(fs, tz, cs); break;
+    case R_CS: r2 = m.replace(fz, ts, cs); break;
+    case R_UU: r2 = m.replace(reinterpret_cast<const char8_t *>(fz), reinterpret_cast<const char8_t *>(tz), cs); break;
+    case R_SU: r2 = m.replace(fs, reinterpret_cast<const char8_t *>(tz), cs); break;
+    case R_US: r2 = m.replace(reinterpret_cast<const char8_t *>(fz), ts, cs); break;
+    default: return r1;
+    }
+    if (r2 != r1) throw std::runtime_error("replace on a non-const subject differs from replace on a const one");
+    if (m != s) throw std::runtime_error("replace changed its (non-const) subject");
+    return r1;
+}
+static ST::string call_replace_on(int form, const ST::string &s, const ST::string &fs, const char *fz, const ST::string &ts, const char *tz, bool ci)
 {
     ST::case_sensitivity_t cs = ci ? ST::case_insensitive : ST::case_sensitive;
     switch (form) {
